@@ -1,4 +1,268 @@
 import MgModel.C08.Ring
+/-!
+# C08 — the invariant of the shared-memory ring buffer model
+
+`Inv wt rt s` (below) is proved to hold in every state reachable from `mkInit`
+(MgProof/C08/Main.lean) by showing that every step of `MgModel.C08.step` preserves it
+(StepW.lean: writer-side steps, StepR.lean: reader-side steps).
+
+Vocabulary
+* `chain c l e`   the messages `l` lie back to back from cell `c` to cell `e`
+* `MsgOk s m`     memory holds the header words and the payload fill of `m`
+* `Geo s`         no marker pending: `q1` lies from `R` to `W`;
+                  marker pending at `M`: `q1` from `R` to `M`, `q2` from `0` to `W`, `W < R`
+* `CROk s`        `cached_remain` never promises cells that are not free
+* `WInv`/`RInv`   what a thread knows at each program counter (values in C locals)
+-/
 namespace MgProof.C08
 open MgModel.Conc MgModel.C08
+
+/-! ## geometry -/
+
+def chain : Nat → List Msg → Nat → Prop
+  | c, [], e => c = e
+  | c, m :: l, e => m.cell = c ∧ 1 ≤ m.ncl ∧ chain (c + m.ncl) l e
+
+theorem chain_le {c e : Nat} {l : List Msg} (h : chain c l e) : c ≤ e := by
+  induction l generalizing c with
+  | nil => simp [chain] at h; omega
+  | cons m l ih => simp only [chain] at h; have := ih h.2.2; omega
+
+theorem chain_mem {c e : Nat} {l : List Msg} (h : chain c l e) {m : Msg} (hm : m ∈ l) :
+    c ≤ m.cell ∧ m.cell + m.ncl ≤ e := by
+  induction l generalizing c with
+  | nil => cases hm
+  | cons x l ih =>
+    simp only [chain] at h
+    rcases List.mem_cons.mp hm with rfl | hm
+    · have := chain_le h.2.2; omega
+    · have := ih h.2.2 hm; omega
+
+theorem chain_append {c e : Nat} {l : List Msg} (h : chain c l e) (m : Msg) (hc : m.cell = e)
+    (hn : 1 ≤ m.ncl) : chain c (l ++ [m]) (e + m.ncl) := by
+  induction l generalizing c with
+  | nil => simp only [chain] at h; subst h; simp [chain, hc, hn]
+  | cons x l ih => simp only [chain] at h; exact ⟨h.1, h.2.1, ih h.2.2⟩
+
+theorem chain_self_nil {c : Nat} {l : List Msg} (h : chain c l c) : l = [] := by
+  cases l with
+  | nil => rfl
+  | cons m l => simp only [chain] at h; have := chain_le h.2.2; omega
+
+theorem chain_ne_nil {c e : Nat} {l : List Msg} (h : chain c l e) (hne : c ≠ e) : l ≠ [] := by
+  intro hl; subst hl; simp [chain] at h; exact hne h
+
+/-! ## memory -/
+
+def MsgOk (s : St) (m : Msg) : Prop :=
+  1 ≤ m.nb ∧ m.ncl = calNcl m.nb ∧ s.hb m.cell = some m.nb ∧ s.hc m.cell = some m.ncl ∧
+  ∀ i, i < spanCells m.nb → s.pb (m.cell + i) = some m.tag
+
+theorem span_le (n : Nat) : spanCells n + 2 = calNcl n := by simp [spanCells, calNcl]
+theorem span_pos (n : Nat) : 1 ≤ spanCells n := by simp [spanCells]; omega
+
+def Geo (s : St) : Prop :=
+  match s.mark with
+  | none => chain s.R s.q1 s.W ∧ s.q2 = []
+  | some M => chain s.R s.q1 M ∧ chain 0 s.q2 s.W ∧ s.W < s.R ∧ M + 1 ≤ s.N ∧
+              s.hb M = some 0 ∧ s.N + 1 ≤ 2 * M
+
+def CROk (s : St) : Prop :=
+  s.W + s.CR + 1 ≤ s.N ∧ (s.mark.isSome → s.W + s.CR + 1 ≤ s.R)
+
+/-! ## program counters -/
+
+/-- inside `w_alloc` / `w_move` (the write lock, if used, is held) -/
+def wsec : Pc → Bool
+  | .a1 | .u0 | .u1 _ | .ug _ | .ugw _ | .ul _ | .ulw _ | .um1 _ | .um2 _ _ | .um3 _ _ | .um4 _
+  | .um5 _ | .a2 | .h1 | .h2 _ | .h3 _ | .h4 _ | .p1 _ | .m1 | .m2 _ | .m3 _ | .m4 _ _ | .m5 _
+  | .m6 _ _ | .unl => true
+  | _ => false
+
+/-- inside `r_fetch` / `r_move` -/
+def rsec : Pc → Bool
+  | .f0 | .f1 _ | .f2 _ | .f3 _ _ | .f4 _ | .f5 _ _ | .g1 | .g2 _ | .g3 _ | .rp _ _ | .k1 | .k2
+  | .k3 _ | .k4 | .k5 _ | .r1 | .r2 _ | .r3 _ | .r4 _ _ => true
+  | _ => false
+
+/-- executing an allocation (its parameters in `cur` are meaningful) -/
+def asec : Pc → Bool
+  | .lk | .lkY => true
+  | p => wsec p
+
+def CurOk (s : St) (t : Nat) : Prop := 1 ≤ (s.cur t).n ∧ (s.cur t).ncl = calNcl (s.cur t).n
+
+/-- the harness ghost says "drained" and the request is within the no-wedge bound -/
+def Dh (s : St) (t : Nat) : Prop := (s.cur t).drained = true ∧ (s.cur t).ncl + 1 ≤ s.N / 2
+
+def Q0 (s : St) : Prop := s.q1 = [] ∧ s.q2 = []
+
+/-- the value `r` loaded from `read_cursor` some time ago -/
+def Rv (s : St) (r : Nat) : Prop :=
+  r + 1 ≤ s.N ∧ (s.mark.isSome → s.W < r ∧ r ≤ s.R) ∧ (s.mark = none → r ≤ s.W → r ≤ s.R)
+
+/-- about to place the wrap marker -/
+def Um (s : St) (t r : Nat) : Prop :=
+  s.CR < (s.cur t).ncl ∧ s.mark = none ∧ (s.cur t).ncl + 1 ≤ r ∧ r ≤ s.R ∧ r ≤ s.W ∧
+  s.N ≤ s.W + (s.cur t).ncl
+
+/-- the header and the payload of the message being built are in place at `W` -/
+def Built (s : St) (t : Nat) : Prop :=
+  (s.cur t).cell = s.W ∧ s.WH = some s.W ∧ s.hb s.W = some (s.cur t).n ∧
+  s.hc s.W = some (s.cur t).ncl ∧ ∀ i, i < spanCells (s.cur t).n → s.pb (s.W + i) = some (s.cur t).tag
+
+/-- `cached_remain` already reduced by the message, cursor not yet advanced -/
+def CRmoved (s : St) (t : Nat) : Prop :=
+  s.W + (s.cur t).ncl + s.CR + 1 ≤ s.N ∧ (s.mark.isSome → s.W + (s.cur t).ncl + s.CR + 1 ≤ s.R)
+
+def WInv (s : St) (t : Nat) : Pc → Prop
+  | .a1 => Dh s t → Q0 s
+  | .u0 => s.CR < (s.cur t).ncl ∧ (Dh s t → Q0 s)
+  | .u1 r => s.CR < (s.cur t).ncl ∧ Rv s r ∧ (Dh s t → Q0 s ∧ r = s.R)
+  | .ug r => s.CR < (s.cur t).ncl ∧ Rv s r ∧ s.W < r ∧ (Dh s t → Q0 s ∧ r = s.R)
+  | .ugw v => s.W + v + 1 ≤ s.N ∧ (s.mark.isSome → s.W + v + 1 ≤ s.R) ∧ (Dh s t → (s.cur t).ncl ≤ v)
+  | .ul r => s.CR < (s.cur t).ncl ∧ r ≤ s.W ∧ r ≤ s.R ∧ s.mark = none ∧ (Dh s t → Q0 s ∧ r = s.R)
+  | .ulw v => s.W + v + 1 ≤ s.N ∧ s.mark = none ∧ (s.cur t).ncl ≤ v
+  | .um1 r => Um s t r
+  | .um2 r w => w = s.W ∧ Um s t r
+  | .um3 r w => w = s.W ∧ Um s t r ∧ s.hb s.W = some 0
+  | .um4 r => Um s t r ∧ s.hb s.W = some 0
+  | .um5 r => s.W = 0 ∧ (s.cur t).ncl + 1 ≤ r ∧ r + 1 ≤ s.N ∧ (s.mark.isSome → r ≤ s.R)
+  | .a2 => Dh s t → (s.cur t).ncl ≤ s.CR
+  | .h1 => (s.cur t).ncl ≤ s.CR
+  | .h2 w => w = s.W ∧ (s.cur t).ncl ≤ s.CR
+  | .h3 w => w = s.W ∧ (s.cur t).ncl ≤ s.CR ∧ s.hb s.W = some (s.cur t).n
+  | .h4 w => w = s.W ∧ (s.cur t).ncl ≤ s.CR ∧ s.hb s.W = some (s.cur t).n ∧
+             s.hc s.W = some (s.cur t).ncl
+  | .p1 w => w = s.W ∧ (s.cur t).ncl ≤ s.CR ∧ Built s t
+  | .m1 => (s.cur t).ncl ≤ s.CR ∧ Built s t
+  | .m2 h => h = s.W ∧ (s.cur t).ncl ≤ s.CR ∧ Built s t
+  | .m3 n => n = (s.cur t).ncl ∧ (s.cur t).ncl ≤ s.CR ∧ Built s t
+  | .m4 n cr => n = (s.cur t).ncl ∧ cr = s.CR ∧ (s.cur t).ncl ≤ s.CR ∧ Built s t
+  | .m5 n => n = (s.cur t).ncl ∧ CRmoved s t ∧ Built s t
+  | .m6 n w => n = (s.cur t).ncl ∧ w = s.W ∧ CRmoved s t ∧ Built s t
+  | _ => True
+
+/-- what `r_fetch` knows about the value `w` it loaded from `write_cursor` -/
+def Fw (s : St) (w : Nat) : Prop :=
+  (w = s.R → s.rP0 = 0) ∧ (s.rMk0 = true → s.mark.isSome) ∧
+  (s.rMk0 = true → w = 0 → s.rP0 = s.q1.length) ∧ (s.rMk0 = true → w ≠ 0 → s.q2 ≠ []) ∧
+  (s.rMk0 = false → w ≠ s.R → s.q1 ≠ [])
+
+/-- the message the reader holds is the head of `q1` -/
+def Held (s : St) : Prop :=
+  ∃ m l, s.q1 = m :: l ∧ s.rcur.cell = m.cell ∧ s.rcur.nb = m.nb ∧ s.rcur.tag = m.tag
+
+def RInv (s : St) : Pc → Prop
+  | .f1 w => Fw s w
+  | .f2 w => w ≠ s.R ∧ Fw s w
+  | .f3 w r => r = s.R ∧ w ≠ s.R ∧ Fw s w
+  | .f4 w => s.RH = some s.R ∧ w ≠ s.R ∧ Fw s w
+  | .f5 w h => h = s.R ∧ s.RH = some s.R ∧ w ≠ s.R ∧ Fw s w
+  | .g1 => s.RH = some s.R ∧ s.q1 ≠ []
+  | .g2 h => h = s.R ∧ s.RH = some s.R ∧ s.q1 ≠ []
+  | .g3 nb => s.RH = some s.R ∧ ∃ m l, s.q1 = m :: l ∧ nb = m.nb
+  | .rp h nb => h = s.R ∧ s.RH = some s.R ∧ ∃ m l, s.q1 = m :: l ∧ nb = m.nb
+  | .k1 => s.RH = some s.R ∧ s.q1 = [] ∧ s.mark = some s.R ∧ s.q2 ≠ []
+  | .k2 => s.q1 ≠ []
+  | .k3 r => r = s.R ∧ s.q1 ≠ []
+  | .k4 => s.RH = some s.R ∧ s.q1 ≠ []
+  | .k5 h => h = s.R ∧ s.RH = some s.R ∧ s.q1 ≠ []
+  | .r1 => s.RH = some s.R ∧ Held s
+  | .r2 h => h = s.R ∧ Held s
+  | .r3 n => Held s ∧ ∃ m l, s.q1 = m :: l ∧ n = m.ncl
+  | .r4 n r => r = s.R ∧ Held s ∧ ∃ m l, s.q1 = m :: l ∧ n = m.ncl
+  | _ => True
+
+/-! ## programs and roles -/
+
+def OpOk : Op → Prop
+  | .alloc n _ => 1 ≤ n
+  | .fetch => True
+
+def isFetch : Op → Bool
+  | .fetch => true
+  | _ => false
+
+/-- thread `t` respects the roles: only `rt` fetches; without the write lock only `wt` allocates -/
+def ProgOk (wt rt : Nat) (s : St) (t : Nat) : Prop :=
+  (∀ op, op ∈ s.prog t → OpOk op) ∧
+  (t ≠ rt → ∀ op, op ∈ s.prog t → isFetch op = false) ∧
+  (s.useLock = false → t ≠ wt → ∀ op, op ∈ s.prog t → isFetch op = true)
+
+structure ThrInv (wt rt : Nat) (s : St) (t : Nat) : Prop where
+  prog : ProgOk wt rt s t
+  cur  : asec (s.pc t) = true → CurOk s t
+  lk   : wsec (s.pc t) = true → (s.useLock = true → s.lock = 1) ∧ (s.useLock = false → t = wt)
+  lku  : (s.pc t = .lk ∨ s.pc t = .lkY ∨ s.pc t = .unl) → s.useLock = true
+  rd   : rsec (s.pc t) = true → t = rt
+  w    : WInv s t (s.pc t)
+  r    : RInv s (s.pc t)
+
+structure Inv (wt rt : Nat) (s : St) : Prop where
+  geo  : Geo s
+  crok : CROk s
+  rle  : s.R + 1 ≤ s.N
+  msgs : ∀ m, m ∈ s.q1 ++ s.q2 → MsgOk s m
+  log  : s.committed = s.delivered ++ (s.q1 ++ s.q2)
+  cnt  : s.fifoViol = 0 ∧ s.overlapViol = 0 ∧ s.boundsViol = 0 ∧ s.corrupt = 0 ∧ s.wedge = 0 ∧
+         s.noneViol = 0 ∧ s.errs = 0
+  excl : ∀ t t', wsec (s.pc t) = true → wsec (s.pc t') = true → t = t'
+  thr  : ∀ t, ThrInv wt rt s t
+
+/-! ## consequences used by several steps -/
+
+theorem Inv.pend {wt rt : Nat} {s : St} (inv : Inv wt rt s) : s.pend = s.q1 ++ s.q2 := by
+  simp [St.pend, inv.log]
+
+theorem Inv.wle {wt rt : Nat} {s : St} (inv : Inv wt rt s) : s.W + 1 ≤ s.N := by
+  have := inv.crok.1; omega
+
+/-- every pending message lies inside the ring, away from the free region `[W, W+k)` whenever
+`k` respects the bound `cached_remain` respects -/
+theorem Inv.free {wt rt : Nat} {s : St} (inv : Inv wt rt s) {k : Nat}
+    (hk : s.W + k + 1 ≤ s.N) (hk2 : s.mark.isSome → s.W + k + 1 ≤ s.R)
+    {m : Msg} (hm : m ∈ s.q1 ++ s.q2) :
+    m.cell + m.ncl ≤ s.W ∨ s.W + k < m.cell := by
+  have g := inv.geo
+  unfold Geo at g
+  cases hmk : s.mark with
+  | none =>
+    simp only [hmk] at g
+    rw [g.2, List.append_nil] at hm
+    exact Or.inl (chain_mem g.1 hm).2
+  | some M =>
+    simp only [hmk] at g
+    have h2 := hk2 (by simp [hmk])
+    rcases List.mem_append.mp hm with h | h
+    · have := (chain_mem g.1 h).1; right; omega
+    · exact Or.inl (chain_mem g.2.1 h).2
+
+/-- the marker cell is not in the free region either -/
+theorem Inv.free_mark {wt rt : Nat} {s : St} (inv : Inv wt rt s) {k M : Nat}
+    (hk2 : s.mark.isSome → s.W + k + 1 ≤ s.R) (hM : s.mark = some M) : s.W + k < M := by
+  have g := inv.geo
+  unfold Geo at g
+  simp only [hM] at g
+  have := chain_le g.1
+  have := hk2 (by simp [hM])
+  omega
+
+/-- the head of `q1` starts at the read cursor -/
+theorem Inv.head {wt rt : Nat} {s : St} (inv : Inv wt rt s) {m : Msg} {l : List Msg}
+    (h : s.q1 = m :: l) : m.cell = s.R ∧ MsgOk s m ∧ s.R + m.ncl + 1 ≤ s.N := by
+  have g := inv.geo
+  have hm : MsgOk s m := inv.msgs m (by simp [h])
+  unfold Geo at g
+  cases hmk : s.mark with
+  | none =>
+    simp only [hmk, h, chain] at g
+    have := chain_le g.1.2.2
+    have := inv.wle
+    exact ⟨g.1.1, hm, by omega⟩
+  | some M =>
+    simp only [hmk, h, chain] at g
+    have := chain_le g.1.2.2
+    exact ⟨g.1.1, hm, by omega⟩
+
 end MgProof.C08
